@@ -11,6 +11,7 @@ Import ListNotations.
 Notation M_step := (gstep thr_clear_on_catch thr_trylock_busy_result (negb thr_exc_via_tls) (negb thr_mark_own_tls_only)).
 Notation M_run := (run thr_clear_on_catch thr_trylock_busy_result (negb thr_exc_via_tls) (negb thr_mark_own_tls_only)).
 Notation M_alone := (alone thr_clear_on_catch).
+Notation M_base := (base thr_clear_on_catch).
 
 (* 1. isolation, every schedule: a thread's core (continuation, own collector registry and ledger, own
    exception record, own TLS, result trace) is a function of its OWN program and of the answers its OWN
@@ -18,13 +19,13 @@ Notation M_alone := (alone thr_clear_on_catch).
    ALONE after the same instructions with the same answers *)
 Theorem isolation : forall (ps : list (list op)) (sched : list tid) t l s,
   nth_error (thr (M_run sched (ginit ps))) t = Some (l, s) ->
-  exists p, nth_error ps t = Some p /\ l = M_alone (hist s) (linit t p).
+  exists p, nth_error ps t = Some p /\ l = M_alone (hist s) (M_base t p (past s)).
 Proof. exact (ThreadsProofs.isolation_core thr_clear_on_catch thr_trylock_busy_result). Qed.
 Print Assumptions isolation.
 
 (* 1b. no try-once section refused (e.g. the program has none): exactly the stand-alone run of `steps s` instructions *)
 Theorem isolation_plain : forall (ps : list (list op)) (sched : list tid) t l s,
-  nth_error (thr (M_run sched (ginit ps))) t = Some (l, s) -> forallb (fun x => x) (hist s) = true ->
+  nth_error (thr (M_run sched (ginit ps))) t = Some (l, s) -> past s = [] -> forallb (fun x => x) (hist s) = true ->
   exists p, nth_error ps t = Some p /\ l = alone_n thr_clear_on_catch (steps s) (linit t p).
 Proof. exact (ThreadsProofs.isolation_plain thr_clear_on_catch thr_trylock_busy_result). Qed.
 Print Assumptions isolation_plain.
@@ -32,13 +33,17 @@ Print Assumptions isolation_plain.
 (* 2. a finished thread has computed exactly its complete stand-alone result *)
 Theorem isolation_finished : forall (ps : list (list op)) (sched : list tid) t l s,
   nth_error (thr (M_run sched (ginit ps))) t = Some (l, s) -> done l = true ->
-  exists p, nth_error ps t = Some p /\ forall h', M_alone (h' ++ hist s) (linit t p) = l.
+  exists p, nth_error ps t = Some p /\ forall h', M_alone (h' ++ hist s) (M_base t p (past s)) = l.
 Proof. exact (ThreadsProofs.isolation_finished thr_clear_on_catch thr_trylock_busy_result). Qed.
 Print Assumptions isolation_finished.
 
-(* 3. frame: an instruction of thread t leaves the core of every other thread unchanged (never diverts
-   its control flow, never changes its exception depth/active, never finalises its objects) *)
-Theorem step_frame : forall t t' g, t <> t' -> core (M_step t g) t' = core g t'.
+(* 3. frame: an instruction of thread t leaves the core of every other thread unchanged (never diverts its
+   control flow, never changes its exception depth/active, never finalises its objects) — the one exception is
+   the call of a Thread object whose previous run has finished and been joined, which starts its next run *)
+Theorem step_frame : forall t t' g, t <> t' ->
+  core (M_step t g) t' = core g t' \/
+  exists lu su p, nth_error (thr g) t' = Some (lu, su) /\ done lu = true /\ joined su = true /\
+                  nth_error (progs g) t' = Some p /\ core (M_step t g) t' = Some (restart lu p).
 Proof. exact (ThreadsProofs.step_frame thr_clear_on_catch thr_trylock_busy_result). Qed.
 Print Assumptions step_frame.
 
@@ -74,20 +79,31 @@ Theorem join_waits : forall (ps : list (list op)) (sched : list tid) u lu su,
 Proof. exact (ThreadsProofs.join_waits thr_clear_on_catch thr_trylock_busy_result). Qed.
 Print Assumptions join_waits.
 
-(* 7. join publishes: after a join(u) has returned, a read of u's result by any thread at any later point
-   of any schedule yields u's complete stand-alone trace *)
-Theorem join_publishes : forall (ps : list (list op)) (sched sched' : list tid) t u lu su p l s k,
-  nth_error (thr (M_run sched (ginit ps))) u = Some (lu, su) -> joined su = true ->
+(* 7. join publishes: whenever the LATEST call of Thread object u has been joined (a call starts a new, unjoined
+   run: 7b), a read of u's result by any thread yields the complete stand-alone trace of that run *)
+Theorem join_publishes : forall (ps : list (list op)) (sched : list tid) t u lu su p l s k,
+  let g := M_run sched (ginit ps) in
+  nth_error (thr g) u = Some (lu, su) -> joined su = true ->
   nth_error ps u = Some p ->
-  let g' := M_run sched' (M_run sched (ginit ps)) in
-  nth_error (thr g') t = Some (l, s) ->
-  aborted g' = false -> started s = true -> done l = false -> fatal l = false -> ub s = false ->
+  nth_error (thr g) t = Some (l, s) ->
+  aborted g = false -> started s = true -> done l = false -> fatal l = false -> ub s = false ->
   code l = KOp (OPeek u) :: k ->
   done lu = true /\
-  (forall h', M_alone (h' ++ hist su) (linit u p) = lu) /\
-  option_map (fun ls => seen (snd ls)) (nth_error (thr (M_step t g')) t) = Some ((u, out lu) :: seen s).
+  (forall h', M_alone (h' ++ hist su) (M_base u p (past su)) = lu) /\
+  option_map (fun ls => seen (snd ls)) (nth_error (thr (M_step t g)) t) = Some ((u, out lu) :: seen s).
 Proof. exact (ThreadsProofs.join_publishes_gen thr_clear_on_catch thr_trylock_busy_result). Qed.
 Print Assumptions join_publishes.
+
+(* 7b. calling a finished, joined Thread object again starts a new run that is NOT joined: join_waits and
+   join_publishes then speak about this latest call *)
+Theorem call_resets_join : forall t g u lu su p l s k,
+  nth_error (thr g) t = Some (l, s) -> aborted g = false -> started s = true -> done l = false ->
+  fatal l = false -> ub s = false -> code l = KOp (OSpawn u) :: k ->
+  nth_error (thr g) u = Some (lu, su) -> started su = true -> done lu = true -> joined su = true ->
+  nth_error (progs g) u = Some p -> t <> u ->
+  nth_error (thr (M_step t g)) u = Some (restart lu p, relaunch su).
+Proof. exact (ThreadsProofs.call_resets_join thr_clear_on_catch thr_trylock_busy_result). Qed.
+Print Assumptions call_resets_join.
 
 (* 8. the variants the source does NOT have are refuted: a process-wide exception record breaks
    isolation, a trylock that claims success on EBUSY breaks exclusion *)
@@ -151,4 +167,11 @@ Proof. vm_compute. do 3 eexists. split; reflexivity. Qed.
 Example tryonce_refused :
   exists l s, nth_error (thr (M_run [0; 0; 1; 1] (ginit [[OSpawn 1; OLock 0; OYield]; [OTryOnce 0 [OIncr 0]; OEmit 3]]))) 1 = Some (l, s)
               /\ hist s = [true; false] /\ out l = [EvEmit 3] /\ holding s = [].
+Proof. vm_compute. do 2 eexists. repeat split; reflexivity. Qed.
+
+(* a Thread object run twice: after the second call the thread is not joined although its first run was;
+   after the second join the reader gets the trace of both runs *)
+Example reuse_nonvacuous :
+  exists lu su, nth_error (thr (M_run [0; 1; 1; 0; 0] (ginit [[OSpawn 1; OJoin 1; OSpawn 1; OJoin 1; OPeek 1]; [OEmit 7]]))) 1 = Some (lu, su)
+                /\ joined su = false /\ past su = [[true; true]] /\ out lu = [EvRestart; EvExit []; EvEmit 7].
 Proof. vm_compute. do 2 eexists. repeat split; reflexivity. Qed.
